@@ -12,4 +12,18 @@ MUTANTS = {
         ('extract_keeps_next', [('librfn/list.c', "	list->head = node->next;\n	node->next = NULL;\n", "	list->head = node->next;\n")]),
         ('iter_next_no_advance_at_end', [('librfn/list.c', "	if (curr) {\n		iter->prevnext = &curr->next;\n		return curr->next;", "	if (curr && curr->next) {\n		iter->prevnext = &curr->next;\n		return curr->next;")]),
     ],
+    'C16': [
+        ('bitcnt_mask_first', [('librfn/bitops.c', "	n = (x >> 1) & 0x77777777;\n	x = x - n;\n	n = (n >> 1) & 0x77777777;", "	n = (x >> 1) & 0x77777776;\n	x = x - n;\n	n = (n >> 1) & 0x77777777;")]),
+        ('clz_drop_smear16', [('librfn/bitops.c', "	x = x | (x >>16);\n", "")]),
+        ('lssb8_mask', [('include/librfn/constexpr.h', "#define const_lssb8(c)  (0xf & c ?", "#define const_lssb8(c)  (0x7 & c ?")]),
+        ('ctz_off', [('librfn/bitops.c', "	return bitcnt(~x & (x - 1));", "	return x ? bitcnt((x - 1) & ~x) : 31;")]),
+        ('pop32_shift', [('include/librfn/constexpr.h', "const_pop16(c >> 16))", "const_pop16(c >> 17))")]),
+        ('lssb64_mask', [('include/librfn/constexpr.h', "#define const_lssb64(c) (0xffffffffull & c ?", "#define const_lssb64(c) (0x7fffffffull & c ?")]),
+    ],
+    'C17': [
+        ('drop_fold', [('librfn/rand.c', "	lo += hi >> 15;\n", "")]),
+        ('mask_ffff', [('librfn/rand.c', "(hi & 0x7fff) << 16", "(hi & 0xffff) << 16")]),
+        ('no_cond_sub', [('librfn/rand.c', "	if (lo > 0x7fffffff)\n		lo -= 0x7fffffff;\n", "")]),
+        ('one_state', [('librfn/rand.c', "	return (*seedp = lo);", "	if (lo == 1043618065) lo ^= 2;\n	return (*seedp = lo);")]),
+    ],
 }
